@@ -26,7 +26,8 @@ RULE = (
     "removed updates; distinct = distinct batch digests" % BATCH
 )
 ASSUMPTIONS = [
-    "all strategies of one backtest share the listener arguments (one stream per market file)",
+    "the strategies of one backtest share the listener arguments (one stream per market file), except in a quarter of the grouped two-strategy scenarios where the second strategy has arguments of its own (two interleaved streams per file; expectations are per strategy)",
+    "the two fresh interpreters differ from the checker process in hash seed, wall-clock offset (+9.5 h, -3 d) and host time zone (New Zealand, US Eastern; POSIX TZ strings)",
     "ties of identical publish times across markets of one event group may be processed in any order",
 ]
 COMPONENTS = common.COMPONENTS_A
